@@ -85,6 +85,10 @@ def decode_path(tok):
 
 def classify_size(tok):
     if re.fullmatch(r'[0-9]+', tok) and tok.isascii():
+        if len(tok) > 4000:
+            # beyond the interpreter's int <-> str conversion limit: a reader may
+            # refuse it (as a syntax error), nothing else (U5)
+            return EITHER, 'size with more than 4000 digits (U5)'
         return ACCEPT, int(tok)
     # what Python's int() would additionally take (U5)
     if re.fullmatch(r'-[0-9]*[1-9][0-9]*', tok) and tok.isascii():
